@@ -71,7 +71,10 @@ def compare(gen: int, ref: dict, got: dict) -> list[dict]:
         for i, (r1, g1) in enumerate(zip(ref[key], got[key])):
             opt = set()
             if not r1["sensor"]:
-                opt = {"temp", "setpoint"}  # API: None when the zone has no sensor
+                # API: None when the zone has no sensor.  AT5 defines the set-point byte on its own (only 0xFF is "invalid"),
+                # and the message class documents None for "no sensor AND no set point defined": there only the temperature
+                # may be withheld
+                opt = {"temp", "setpoint"} if gen == 4 else {"temp"}
             _cmp_record(f"{key}[{i}]", r1, g1, diffs, opt)
         return diffs
     if rk in ("unknown", "ext_unknown", "cs_unknown"):
